@@ -5,8 +5,7 @@ import SdnsVerif.Props.C08
 #print axioms SdnsVerif.Props.C08.ceiling_is_12h
 #print axioms SdnsVerif.Props.C08.setuntil_ceiling
 #print axioms SdnsVerif.Props.C08.descendant_le_ancestor
-#print axioms SdnsVerif.Props.C08.descendant_le_stored_ancestor_partial
-#print axioms SdnsVerif.Props.C08.ceiling_gap_reachable
+#print axioms SdnsVerif.Props.C08.descendant_le_stored_ancestor
 #print axioms SdnsVerif.Props.C08.no_self_extension
 #print axioms SdnsVerif.Props.C08.learned_data_bounded
 #print axioms SdnsVerif.Props.C08.remaining_le_cut
